@@ -10,6 +10,7 @@ import GMGDriver.SchedDrv
 import GMGDriver.ParDrv
 import GMGDriver.OptionsDrv
 import GMGDriver.InputFnDrv
+import GMGDriver.FootDrv
 
 def main (args : List String) : IO UInt32 := do
   match args with
@@ -28,6 +29,7 @@ def main (args : List String) : IO UInt32 := do
   | ["par"] => ParDrv.main
   | ["options"] => OptionsDrv.main
   | ["inputfn"] => InputFnDrv.main
+  | ["foot"] => FootDrv.main
   | ["sched", a, b] => SchedDrv.main a.toNat! b.toNat!
   | _ => do
     IO.eprintln "usage: gmgdriver <grid|tridiag|lu|...>  (reads the harness line protocol on stdin)"
